@@ -61,6 +61,23 @@ Definition edges (poly : list (Qc * Qc)) : list ((Qc * Qc) * (Qc * Qc)) := combi
 Definition parity (l : list bool) : bool := fold_right xorb false l.
 Definition polygon_in (poly : list (Qc * Qc)) (p : Qc * Qc) : bool := parity (map (edge_crosses p) (edges poly)).
 
+(* orientation of p relative to the directed line a -> b: positive when p is strictly to the left *)
+Definition orient (a b p : Qc * Qc) : Qc := (fst b - fst a) * (snd p - snd a) - (snd b - snd a) * (fst p - fst a).
+(* strictly inside the triangle a b c (either orientation): on the same side of the three directed edges *)
+Definition tri_inb (p : Qc * Qc) (t : (Qc * Qc) * (Qc * Qc) * (Qc * Qc)) : bool :=
+  let '(a, b, c) := t in
+  (Qcltb 0 (orient a b p) && Qcltb 0 (orient b c p) && Qcltb 0 (orient c a p)) ||
+  (Qcltb (orient a b p) 0 && Qcltb (orient b c p) 0 && Qcltb (orient c a p) 0).
+(* p lies on none of the three edge lines of a non-degenerate triangle *)
+Definition tri_general (p : Qc * Qc) (t : (Qc * Qc) * (Qc * Qc) * (Qc * Qc)) : Prop :=
+  let '(a, b, c) := t in orient a b c <> 0 /\ orient a b p <> 0 /\ orient b c p <> 0 /\ orient c a p <> 0.
+(* the fan of triangles (a, v_i, v_i+1) of the vertex list a :: l *)
+Fixpoint fan (a : Qc * Qc) (l : list (Qc * Qc)) : list ((Qc * Qc) * (Qc * Qc) * (Qc * Qc)) :=
+  match l with
+  | b :: t => match t with c :: _ => (a, b, c) :: fan a t | [] => [] end
+  | [] => []
+  end.
+
 (* ---- which sensors a shape returns: those on the constrained side, in ranking order ---- *)
 Definition on_side (l : loc) (inside : bool) : bool := match l with LIn => inside | LOut => negb inside end.
 Definition constrained {P} (inside : P -> bool) (l : loc) (pt : nat -> P) (ranking : list nat) : list nat :=
